@@ -249,7 +249,21 @@ pub fn mutate_semantic(p: &mut Program, rng: &mut Rng) -> Option<String> {
     if count == 0 {
         return None;
     }
-    let target = rng.usize(count);
+    let mut target = rng.usize(count);
+    // one time in three aim at a record constructor (the richest family of mutators)
+    if rng.chance(1, 3) {
+        let mut structs = vec![];
+        let mut k = 0usize;
+        for_each_expr_mut(p, &mut |e| {
+            if matches!(e, E::Struct { .. }) {
+                structs.push(k);
+            }
+            k += 1;
+        });
+        if !structs.is_empty() {
+            target = structs[rng.usize(structs.len())];
+        }
+    }
     let foreign = foreign_names(p);
     let pick = rng.next_u64();
     let (fk, fname) = foreign[(rng.next_u64() % foreign.len() as u64) as usize].clone();
@@ -259,7 +273,26 @@ pub fn mutate_semantic(p: &mut Program, rng: &mut Rng) -> Option<String> {
         if seen == target {
             let m = pick % 4;
             let name: String = match e {
-                E::Struct { ty, case, fields, spread, def_fields, .. } => match pick % 8 {
+                E::Struct { ty, case, fields, spread, def_fields, .. } => match pick % 11 {
+                    // a list index that is a bare name of the wrong kind: one of the constructor's own
+                    // field names (in scope inside the constructor, but a field is not a value) ...
+                    8 if !fields.is_empty() && !def_fields.is_empty() => {
+                        let k = (pick / 11) as usize % fields.len();
+                        let own = def_fields[(pick / 64) as usize % def_fields.len()].clone();
+                        fields[k].1 = E::Raw(format!("idxList9[{own}]"));
+                        "index-by-own-field-name".into()
+                    }
+                    // ... or the name of a type / party / asset / policy / case / function
+                    9 if !fields.is_empty() => {
+                        let k = (pick / 11) as usize % fields.len();
+                        fields[k].1 = E::Raw(format!("idxList9[{fname}]"));
+                        format!("index-by-{fk}")
+                    }
+                    10 if !fields.is_empty() => {
+                        let k = (pick / 11) as usize % fields.len();
+                        fields[k].1 = E::Raw(format!("idxList9[idxList9[{fname}]]"));
+                        format!("nested-index-by-{fk}")
+                    }
                     0 if spread.is_none() && !fields.is_empty() => {
                         fields.remove((pick / 8) as usize % fields.len());
                         "constructor-missing-field-without-spread".into()
@@ -386,6 +419,14 @@ pub fn mutate_semantic(p: &mut Program, rng: &mut Rng) -> Option<String> {
         }
         seen += 1;
     });
+    if matches!(&applied, Some(a) if a.contains("index-by-")) {
+        // the list the mutated expression indexes
+        for tx in p.txs.iter_mut() {
+            if !tx.params.iter().any(|(n, _)| n == "idxList9") {
+                tx.params.push(("idxList9".into(), Ty::List(Box::new(Ty::Int))));
+            }
+        }
+    }
     applied
 }
 
